@@ -170,6 +170,10 @@ class MinimalInlineReader:
         return self.segyfile.bin[segyio.BinField.Format]
 
     def self_test(self):
+        if getattr(self.segyfile, 'sorting', None) == segyio.TraceSortingFormat.CROSSLINE_SORTING:
+            # read_line() takes n_xlines consecutive traces for an inline: only true for inline-sorted files,
+            # and comparing the first line cannot tell when its traces happen to be alike
+            return False
         headers, array = self.read_line(0)
         array_equal = np.array_equal(self.segyfile.iline[self.segyfile.ilines[0]], array)
         headers_equal = all([h1 == h2 for h1, h2 in zip(headers, self.segyfile.header[0: self.n_xl])])
